@@ -239,6 +239,10 @@ def container_faults(ctx, base, index_offset):
                 pass
         except errors.DataError:
             pass
+        except OSError:
+            # some damage makes the archive layer fail with an OSError (seek to an impossible offset): "the named file
+            # cannot be read" (C18: exit code 3) is a defensible answer for a damaged file, so this is not judged
+            ctx.unjudged("damaged container reported as OSError (environment)")
         except Exception as error:
             ctx.violation("C10:escape:container:%s:%s" % (base.kind, classify_escape(error)), case, "a damaged container ended in an internal error",
                           expected="DataError or success", observed=error)
